@@ -289,6 +289,80 @@ impl Dyn for Chain<u16> {
     }
 }
 
+// ---------------------------------------------------------------- generic enums whose variants do not use every parameter
+// (finding F10: the schema derive did not compile for them)
+
+#[derive(BorshSerialize, BorshDeserialize, BorshSchema, Clone, Debug, PartialEq)]
+pub enum Marked<T> {
+    Tag(std::marker::PhantomData<T>),
+    Num(u8),
+    Both { m: std::marker::PhantomData<T>, n: u16 },
+}
+impl Dyn for Marked<String> {
+    fn ty() -> String {
+        format!(
+            "(sum (derivedsrc Marked 0 n) (Tag _ (_ 0 {})) (Num _ (_ 0 {})) (Both _ (m 0 {}) (n 0 {})))",
+            <std::marker::PhantomData<u64> as Dyn>::ty(), <u8 as Dyn>::ty(), <std::marker::PhantomData<u64> as Dyn>::ty(), <u16 as Dyn>::ty()
+        )
+    }
+    fn gen(g: &mut Gen, d: u32) -> Self {
+        match g.below(3) {
+            0 => Marked::Tag(std::marker::PhantomData),
+            1 => Marked::Num(Dyn::gen(g, d + 1)),
+            _ => Marked::Both { m: std::marker::PhantomData, n: Dyn::gen(g, d + 1) },
+        }
+    }
+    fn val(&self, o: &mut String) {
+        match self {
+            Marked::Tag(_) => o.push_str("(v 0 (l))"),
+            Marked::Num(a) => {
+                o.push_str("(v 1 ");
+                a.val(o);
+                o.push(')');
+            }
+            Marked::Both { n, .. } => {
+                o.push_str("(v 2 (l) ");
+                n.val(o);
+                o.push(')');
+            }
+        }
+    }
+}
+
+#[derive(BorshSerialize, BorshDeserialize, BorshSchema, Clone, Debug, PartialEq)]
+pub enum Msg<'a> {
+    Text(std::borrow::Cow<'a, str>),
+    Ping,
+    Code(u32),
+}
+impl Dyn for Msg<'static> {
+    fn ty() -> String {
+        format!("(sum (derivedsrc Msg 0 n) (Text _ (_ 0 {})) (Ping _) (Code _ (_ 0 {})))", <std::borrow::Cow<'static, str> as Dyn>::ty(), <u32 as Dyn>::ty())
+    }
+    fn gen(g: &mut Gen, d: u32) -> Self {
+        match g.below(3) {
+            0 => Msg::Text(Dyn::gen(g, d + 1)),
+            1 => Msg::Ping,
+            _ => Msg::Code(Dyn::gen(g, d + 1)),
+        }
+    }
+    fn val(&self, o: &mut String) {
+        match self {
+            Msg::Text(a) => {
+                o.push_str("(v 0 ");
+                a.val(o);
+                o.push(')');
+            }
+            Msg::Ping => o.push_str("(v 1)"),
+            Msg::Code(a) => {
+                o.push_str("(v 2 ");
+                a.val(o);
+                o.push(')');
+            }
+        }
+    }
+}
+
 /// (entry, the description unfolds linearly in the depth)
 pub fn recursive_catalogue() -> Vec<(Entry, bool)> {
     vec![
@@ -302,6 +376,8 @@ pub fn recursive_catalogue() -> Vec<(Entry, bool)> {
         (entry::<Vec<List>>("Vec<List>"), true),
         (entry::<(Node, Option<List>)>("(Node, Option<List>)"), true),
         (entry::<Expr>("Expr"), false),
+        (entry::<Marked<String>>("Marked<String>"), true),
+        (entry::<Msg<'static>>("Msg"), true),
     ]
 }
 
@@ -317,5 +393,7 @@ pub fn recursive_schema_catalogue() -> Vec<(&'static str, crate::catalogue::SRun
     v.push(("Chain<u16>", schema_ty::<Chain<u16>> as crate::catalogue::SRun));
     v.push(("Expr", schema_ty::<Expr> as crate::catalogue::SRun));
     v.push(("Vec<List>", schema_ty::<Vec<List>> as crate::catalogue::SRun));
+    v.push(("Marked<String>", schema_ty::<Marked<String>> as crate::catalogue::SRun));
+    v.push(("Msg", schema_ty::<Msg<'static>> as crate::catalogue::SRun));
     v
 }
